@@ -103,7 +103,15 @@ func RunSeq(sc SeqScenario, o SeqOpts) *SeqResult {
 	for i, op := range sc.Ops {
 		switch op.Kind {
 		case "evict":
-			w.L1.Evict(op.Key)
+			if sc.Cfg.L1H == "chunked" {
+				for _, k := range w.L1.Keys() {
+					if ck, _, ok := ownerOf(k); ok && ck == op.Key {
+						w.L1.Evict(k)
+					}
+				}
+			} else {
+				w.L1.Evict(op.Key)
+			}
 			continue
 		case "advance":
 			time.Sleep(time.Duration(op.Sec) * time.Second)
@@ -197,7 +205,11 @@ func RunSeq(sc SeqScenario, o SeqOpts) *SeqResult {
 	if o.StateKey != nil {
 		res.StateKey = o.StateKey(w, m)
 	} else {
-		res.StateKey = "M:" + m.Dump() + "|L1:" + w.L1.Dump() + "|L2:" + w.L2.Dump()
+		l1 := w.L1.Dump()
+		if sc.Cfg.L1H == "chunked" {
+			l1 = chunkDump(w.L1)
+		}
+		res.StateKey = "M:" + m.Dump() + "|L1:" + l1 + "|L2:" + w.L2.Dump()
 	}
 	return res
 }
@@ -208,8 +220,12 @@ type BFSOpts struct {
 	MaxDepth  int
 	MaxStates int
 	MaxValLen int // histories that grow a value beyond this are checked but not expanded
-	Bubble    bool
-	Seq       SeqOpts
+	// Shard: all workers run the (cheap) upper levels, the transitions of the last level are
+	// dealt to the workers; states are then counted as the union of StateKey over workers.
+	Shard  bool
+	Item   int
+	Bubble bool
+	Seq    SeqOpts
 	// OnExec sees every executed history (after the oracle ran).
 	OnExec func(sc SeqScenario, r *SeqResult)
 }
@@ -241,37 +257,53 @@ func BFS(c *rt.Ctx, harness string, cfg Cfg, alphabet []wire.Op, bo BFSOpts) (st
 			break
 		}
 		var next []fnode
-		for _, fn := range frontier {
+		lastLevel := bo.MaxDepth > 0 && depth == bo.MaxDepth-1
+		for fi, fn := range frontier {
 			hist := fn.ops
 			if c.Expired() {
 				return states, trans, false
 			}
-			for _, ev := range alphabet {
+			for ei, ev := range alphabet {
+				mine := !bo.Shard || c.Mine(bo.Item+fi*len(alphabet)+ei)
+				if !mine && lastLevel {
+					continue
+				}
 				ops := append(append([]wire.Op{}, hist...), ev)
 				sc := SeqScenario{Harness: harness, Cfg: cfg, Ops: ops}
 				r := run(sc)
-				trans++
-				c.Eval(1)
-				c.Trace(1)
-				if bo.OnExec != nil {
-					bo.OnExec(sc, r)
+				if mine {
+					trans++
+					c.Eval(1)
+					c.Trace(1)
+					if bo.OnExec != nil {
+						bo.OnExec(sc, r)
+					}
 				}
 				if len(r.Findings) > 0 {
-					for _, f := range r.Findings {
-						c.Violation(f.Sig, f.What, sc)
+					if mine {
+						for _, f := range r.Findings {
+							c.Violation(f.Sig, f.What, sc)
+						}
 					}
 					continue // do not expand past a violating transition
 				}
 				if bo.MaxValLen > 0 && r.MaxVal > bo.MaxValLen {
 					continue
 				}
-				if n := len(r.Replies); n > 0 && r.LastDependsOnState {
+				if n := len(r.Replies); mine && n > 0 && r.LastDependsOnState {
 					// a transition whose reply depends on the state it was taken from
 					c.Nontrivial(cfg.String() + "|" + fn.key + "|" + ev.String())
 				}
 				if !seen[r.StateKey] {
 					seen[r.StateKey] = true
 					states++
+					if bo.Shard {
+						if !mine {
+							next = append(next, fnode{ops, r.StateKey})
+							continue
+						}
+						c.StateKey(cfg.String() + "|" + r.StateKey)
+					}
 					c.Distinct(cfg.String() + "|" + r.StateKey)
 					if states <= 3 || (states%997 == 0) {
 						c.Sample(map[string]interface{}{"cfg": cfg.String(), "history": opsStrings(ops), "replies": r.Replies, "state": r.StateKey})
